@@ -318,7 +318,10 @@ def run(ctx, rep):
 
     # ------------------------------------------------------------------ R2 summary and commission
     cl = prog.own_method("Market", "cleared")
-    d = {utext(s.targets[0]): s.value for s in walk_nodes(cl.node.body, ast.Assign)}
+    cfgcl = ctx.cfg(cl)
+    # assignments on live paths only (branches switched off by a defaulted new parameter are not code the
+    # package runs)
+    d = {utext(n.ast.targets[0]): n.ast.value for n in cfgcl.live_nodes() if n.kind == "stmt" and isinstance(n.ast, ast.Assign)}
     o_ok = "orders" in d and utext(d["orders"]) == "self.blotter.client_orders(%s, matched_only=True)" % cl.params[1]
     p_ok = "profit" in d and utext(d["profit"]) == "round(sum([order.profit for order in orders]), 2)"
     rep.check(o_ok, "R2", key(cl, None, "the summary ranges over that client's matched orders"), cl, d.get("orders"))
